@@ -13,7 +13,7 @@ import sys
 
 VERIF = os.path.dirname(os.path.dirname(os.path.abspath(__file__)))
 EXTRA = {  # other checks worth running for a change seeded against a property
-    "C02a": ["C13"], "C05a": ["C06"], "C06b": ["C15"], "C15b": ["C09"], "C09b": ["C15"],
+    "C02a": ["C13"], "C02c": ["C17"], "C02f": ["C16"], "C01f": ["C16"], "C08f": ["C16"], "C03c": ["C16"], "C06d": ["C15"], "C05a": ["C06"], "C06b": ["C15"], "C15b": ["C09"], "C09b": ["C15"],
 }
 HISTORY = {  # what had to be strengthened before the change was caught (filled from the campaign log)
     "C01a": "missed at first: no input held the same picture twice -> added stamp_twice / copy_block mutations",
@@ -59,9 +59,9 @@ def main():
                 patch = f"{d}/{x}.rebased.diff" if os.path.exists(f"{d}/{x}.rebased.diff") else f"{d}/{x}.diff"
                 if os.path.exists(patch):
                     todo.append((pid + x, pid, patch, f"{d}/demo_{x}.py", f"{d}/NOTES.md"))
-    elif "--from-tmp2" in sys.argv or "--from-tmp3" in sys.argv:
-        # later rounds: /tmp/mutants2/<pid>/{a,b}.diff are stored as <pid>c / <pid>d, /tmp/mutants3/... as <pid>e / <pid>f
-        rdir, letters = ("/tmp/mutants2", "cd") if "--from-tmp2" in sys.argv else ("/tmp/mutants3", "ef")
+    elif any(a in sys.argv for a in ("--from-tmp2", "--from-tmp3", "--from-tmp4")):
+        # later rounds: /tmp/mutants2/<pid>/{a,b}.diff are stored as <pid>c / <pid>d, /tmp/mutants3/... as e / f, /tmp/mutants4/... as g / h
+        rdir, letters = next((d, l) for a, d, l in (("--from-tmp2", "/tmp/mutants2", "cd"), ("--from-tmp3", "/tmp/mutants3", "ef"), ("--from-tmp4", "/tmp/mutants4", "gh")) if a in sys.argv)
         for pid in sorted(os.listdir(rdir)):
             d = f"{rdir}/{pid}"
             if not os.path.isdir(d):
@@ -96,7 +96,7 @@ def main():
         needs = ""
         if os.path.exists(f"{dst}/NOTES.md"):
             txt = open(f"{dst}/NOTES.md").read()
-            letter = "A" if sid[-1] in "ace" else "B"
+            letter = "A" if sid[-1] in "aceg" else "B"
             m = re.search(rf"(?ms)^## Change {letter}\b(.*?)(?=^## |\Z)", txt)
             section = (m.group(0) if m else txt).strip()
             paras = [p.strip() for p in re.split(r"\n\s*\n", section)]
